@@ -6,6 +6,7 @@
   (to_string/print call verify and therefore also reset the parser; stated in DESIGN.md.)
 -/
 import Binson.Lemmas.Latch
+import Binson.Lemmas.WriterXLemmas
 import Binson.Lemmas.WriterLemmas
 import Binson.Model.Transcribe
 namespace Binson
@@ -60,6 +61,24 @@ theorem writer_latch (w : Writer) (op : WOp) (h : w.err ≠ .none) :
 theorem writer_latch_run (w : Writer) (ops : List WOp) (h : w.err ≠ .none) :
     (w.run ops).err ≠ .none ∧ (w.run ops).mem = w.mem :=
   let ⟨a, b, _⟩ := run_latched ops w h; ⟨a, b⟩
+
+
+/-- the same over the writer's FULL call vocabulary (`WOpX`: valid calls, a NULL name or data pointer, a raw write
+    of SIZE_MAX bytes): once the flag is set - by overflow or by a NULL argument - every later call other than a
+    reset returns false, stores nothing, and the flag stays set -/
+theorem writer_latch_full (w : Writer) (op : WOpX) (h : w.err ≠ .none) (hr : op ≠ .reset) :
+    (w.stepX op).2 = false ∧ (w.stepX op).1.mem = w.mem ∧ (w.stepX op).1.err ≠ .none ∧ (w.stepX op).1.fault = w.fault :=
+  stepX_latched w op h hr
+
+theorem writer_latch_full_run (ops : List WOpX) (w : Writer) (h : w.err ≠ .none) (hn : ∀ op ∈ ops, op ≠ .reset) :
+    (w.runX ops).err ≠ .none ∧ (w.runX ops).mem = w.mem ∧ (w.runX ops).fault = w.fault :=
+  runX_latched ops w h hn
+
+/-- the calls outside `WOp` themselves: false, nothing stored, an error set -/
+theorem writer_invalid_calls (w : Writer) (op : WOpX) (hv : ∀ o, op ≠ .op o) (hr : op ≠ .reset) :
+    (w.stepX op).2 = false ∧ (w.stepX op).1.mem = w.mem ∧ (w.stepX op).1.err ≠ .none ∧ (w.stepX op).1.fault = w.fault ∧
+    (w.stepX op).1.cap = w.cap :=
+  stepX_invalid w op hv hr
 
 /-- non-vacuity: a 1-byte buffer overflows on the second byte -/
 example : ((Writer.init #[0] 1).1.run [.objBegin, .objEnd]).err = .range := by decide
